@@ -90,3 +90,8 @@ func init() {
 	props["C06"] = &propInfo{engine: "B", level: "exploration", minOutcomes: 2, mustOutcomes: []string{"value", "error"},
 		assume: []string{"excluded as non-terminating by specification: sleep with a positive number, valid setCronTrigger/setPulseTrigger registrations; evaluation runs under a deterministic step budget (user-written endless loops end as 'budget')", "a panic on a worker goroutine kills the worker subprocess and is attributed to the case in progress through a side file written before each risky case"}}
 }
+
+func init() {
+	props["C05"] = &propInfo{engine: "B", level: "exploration", minOutcomes: 1, mustOutcomes: []string{"agrees"},
+		assume: []string{"reading an undefined name yields NULL (pinned by the repository's suite, not by the documentation)", "every block is entered once per program (left-over bindings of a re-entered block are left open)", "the argument of add/del and its aliases are not read after the call ('only the returned value should be used further')", "a failing statement inside try has no effect"}}
+}
